@@ -1,5 +1,4 @@
 // probe
-use garde::Validate as GV;
 use serde::Deserialize;
 use serde_saphyr::localizer::Localizer;
 use serde_saphyr::{Location, MessageFormatter, RenderOptions, SnippetMode, Spanned};
@@ -36,11 +35,14 @@ struct GItem {
     qty: i64,
 }
 
+mod vv {
+use serde::Deserialize;
+use validator::Validate;
 #[derive(Debug, Deserialize, validator::Validate, PartialEq)]
 #[serde(rename_all = "camelCase")]
-struct VRoot {
+pub struct VRoot {
     #[validate(length(min = 2))]
-    user_name: String,
+    pub user_name: String,
     #[validate(range(min = 1, max = 100))]
     max_count: i64,
     #[validate(nested)]
@@ -51,7 +53,7 @@ struct VRoot {
 }
 #[derive(Debug, Deserialize, validator::Validate, PartialEq)]
 #[serde(rename_all = "kebab-case")]
-struct VInner {
+pub struct VInner {
     #[validate(length(min = 2))]
     host_name: String,
     #[validate(range(min = 1))]
@@ -59,13 +61,15 @@ struct VInner {
 }
 #[derive(Debug, Deserialize, validator::Validate, PartialEq)]
 #[serde(rename_all = "camelCase")]
-struct VItem {
+pub struct VItem {
     #[validate(length(min = 2))]
     item_name: String,
     #[validate(range(min = 1))]
     qty: i64,
 }
 
+}
+use vv::*;
 #[derive(Debug, Deserialize)]
 #[serde(rename_all = "camelCase")]
 struct MRoot {
@@ -197,5 +201,4 @@ fn main() {
             Err(e) => println!("mirror err {e}"),
         }
     }
-    let _ = GRoot::validate;
 }
